@@ -2,6 +2,7 @@ pub mod c01;
 pub mod c02;
 pub mod c03;
 pub mod c04;
+pub mod c05;
 pub mod c06;
 pub mod c09;
 pub mod c10;
@@ -21,6 +22,7 @@ pub fn by_id(id: &str) -> Option<Box<dyn Property>> {
         "C02" => Box::new(c02::C02),
         "C03" => Box::new(c03::C03),
         "C04" => Box::new(c04::C04),
+        "C05" => Box::new(c05::C05),
         "C06" => Box::new(c06::C06),
         "C09" => Box::new(c09::C09),
         "C10" => Box::new(c10::C10),
